@@ -2,6 +2,7 @@
 import json, os
 import vcommon as V
 import vmcommon as M
+import schedcommon as SC
 from vmcommon import N, B, S, Var, Arr, Code, Nul, Un, Bin, E, Asg, Loc, Prog
 
 PID = "C05"
@@ -180,6 +181,73 @@ def trace_invariant(trace):
     return None, mx
 
 
+
+# ---------------------------------------------------------------- a terminated script yields no value
+def _dl(x):
+    return M.E(M.Un("diag_log", x))
+
+
+def _wait(d):
+    """call { sleep d; 0 } - the script goes to sleep inside a nested scope"""
+    return M.Un("call", M.Code(M.E(M.Un("sleep", M.N(d))), M.E(M.N(0))))
+
+
+def victim_bodies():
+    """name -> (statements of the victim, operands that are pending in enclosing scopes when it sleeps).
+    Marker 101 is logged before the sleep, 199 would be logged after it (never, the script is terminated)."""
+    N, Bin, Un, Code, E, Asg, Arr = M.N, M.Bin, M.Un, M.Code, M.E, M.Asg, M.Arr
+    b = {}
+    b["statement_level"] = ([_dl(N(101)), E(_wait(5)), _dl(N(199))], [])
+    b["sum_depth1"] = ([_dl(N(101)), Asg("_s", Bin("+", Bin("+", N(4040), N(2)), _wait(5))), _dl(N(199))], [4042])
+    b["sum_depth2"] = ([_dl(N(101)), Asg("_s", Bin("+", N(4100), Un("call", Code(E(Bin("+", N(4200), _wait(5))))))), _dl(N(199))], [4100, 4200])
+    b["array_depth3"] = ([_dl(N(101)), Asg("_s", Arr(N(4301), Un("call", Code(E(Arr(N(4302), Un("call", Code(E(Bin("+", N(4303), _wait(5))))))))))),
+                          _dl(N(199))], [4301, 4302, 4303])
+    b["if_then"] = ([_dl(N(101)), E(Bin("then", Un("if", M.B(True)), Code(Asg("_s", Bin("+", N(4400), _wait(5)))))), _dl(N(199))], [4400])
+    b["foreach"] = ([_dl(N(101)), E(Bin("forEach", Code(Asg("_t", Bin("+", Bin("+", M.Var("_x"), N(4500)), _wait(5)))), Arr(N(7)))), _dl(N(199))], [4507])
+    b["array_two_pending"] = ([_dl(N(101)), Asg("_s", Arr(N(4601), N(4602), _wait(5))), _dl(N(199))], [4601, 4602])
+    b["fnc_in_global"] = ([_dl(N(101)), Asg("_s", Bin("+", Bin("+", N(4740), N(2)), Un("call", M.Var("fnc_wait")))), _dl(N(199))], [4742])
+    return b
+
+
+def terminated_cases():
+    """histories: the victim is spawned and sleeps inside nested scopes with pending operands; another spawned script (after a
+    sleep of 1 or 2 s) or the main script (in its second slice) terminates it; a bystander runs to its end with a value of its own.
+    Expected: the scripts that ran to their end report their value once, the victim reports none and logs nothing after its sleep."""
+    N, Bin, Un, Code, E, Asg = M.N, M.Bin, M.Un, M.Code, M.E, M.Asg
+    out = []
+    for name, (body, pending) in sorted(victim_bodies().items()):
+        for killer in ("script_after_1s", "script_after_2s", "main_second_slice", "victim_itself_then_sleep"):
+            stmts = [Asg("fnc_wait", Code(E(Un("sleep", N(5))), E(N(0))))]
+            expect = []
+            if killer == "victim_itself_then_sleep":
+                vb = [E(Un("terminate", M.Var("_thisScript")))] + body
+            else:
+                vb = body
+            stmts.append(Asg("hv", Bin("spawn", N(0), Code(*vb))))
+            stmts.append(E(Bin("spawn", N(0), Code(_dl(N(801)), E(Un("sleep", N(1))), _dl(N(802)), E(N(33))))))    # bystander
+            expect.append("33")
+            if killer.startswith("script_after"):
+                d = 1 if killer.endswith("1s") else 2
+                stmts.append(E(Bin("spawn", N(0), Code(E(Un("sleep", N(d))), E(Un("terminate", M.Var("hv"))), _dl(N(901)), E(N(55))))))
+                expect.append("55")
+            elif killer == "main_second_slice":
+                stmts += [_dl(N(1000 + k)) for k in range(60)]      # more than one slice of the main script
+                stmts.append(E(Un("terminate", M.Var("hv"))))
+            stmts.append(E(N(0)))
+            expect.append("0")
+            out.append(("terminated:%s:%s" % (name, killer), [("L", M.Prog(*stmts)), ("S",)], sorted(expect), pending, False))
+    # the failure path of evaluate_expression (the preprocessor's __EVAL): operands of enclosing scopes are pending when the
+    # expression fails; nothing of it may be reported when the scheduler collects the evaluation context in the next run
+    for name, text, pending in (("sum", "4801 + (call { 4802 + ([1] select 7) })", [4801, 4802]),
+                                ("array", "[4811, call { [4812, [1] select 7] }]", [4811, 4812])):
+        out.append(("eval_fails:" + name, [("E", text), ("L", M.Prog(_dl(N(601)), E(N(66)))), ("S",)], ["66"], pending, True))
+    return out
+
+
+def dropped_values(obs):
+    return sorted(m[len("VALUE "):] for m in SC.markers(obs) if m.startswith("VALUE "))
+
+
 def main(replay=None):
     run = V.Run(PID, "proof")
     rng = run.rng
@@ -272,16 +340,57 @@ def main(replay=None):
             fd = M.first_diff(d["m_trace"], d["i_trace"])
             rep["first_trace_diff"] = list(fd) if fd else None
             run.violation("implementation and VM model disagree (%s); the property oracles hold on this input" % ",".join(diffs), rep, found_input=False)
+    # ---- scheduled scripts: a terminated script yields no value (h_sched: implementation and scheduler model under the virtual clock)
+    nterm = 0
+    if not replay or json.load(open(replay))["replay"].get("kind", "").startswith(("terminated", "eval_fails")):
+        hs, drv_s, consts = SC.build(thorough)
+        fam_cases = terminated_cases()
+        if replay:
+            want = json.load(open(replay))["replay"]["kind"]
+            fam_cases = [c for c in fam_cases if c[0] == want]
+        res_f = SC.run_histories(hs, drv_s, [c[1] for c in fam_cases], defects=[], max_runtime_ms=0, tick_us=100000,
+                                 max_loop=consts["default_max_loop"], slice_=consts["slice_length"])
+        for (name, hist, expect, pending, impl_only), d in zip(fam_cases, res_f):
+            nterm += 1
+            kinds[name.split(":")[0]] = kinds.get(name.split(":")[0], 0) + 1
+            i_run = d["i_obs"][-1]
+            rep = {"kind": name, "hist": [list(h) for h in hist], "texts": d.get("texts"), "impl": [o[:1500] for o in d["i_obs"]],
+                   "model": [o[:1500] for o in d["m_obs"]], "expected_dropped_values": expect, "pending_operands": pending}
+            pr = SC.parse_run(i_run)
+            if pr is None:
+                run.violation("scheduled scripts: the run did not come back (%s)" % i_run[:80], rep)
+                continue
+            vals = dropped_values(pr["events"])
+            stale = [v for v in vals if v.isdigit() and int(v) in pending]
+            marks = [m for m in SC.markers(pr["events"]) if not m.startswith("VALUE ")]
+            if stale:
+                run.violation("a script whose work was dropped (terminated / failed evaluation) is reported with the value %s - an operand that an "
+                              "enclosing scope still had pending; it has no value to yield" % stale[0], rep)
+                continue
+            if [v for v in vals if v != "nil"] != [v for v in expect]:
+                run.violation("values reported for the finished scripts: %s, expected %s (one per script that ran to its end, none for the "
+                              "terminated one)" % (vals, expect), rep)
+                continue
+            if "199" in marks:
+                run.violation("the terminated script went on after its sleep (marker 199)", rep)
+                continue
+            if not impl_only and not SC.same_obs(d["m_obs"], d["i_obs"]):
+                rep["broken"] = "correspondence scheduler model (SchedDefs.run_history) vs implementation on a terminate history"
+                run.violation("implementation and scheduler model disagree on a history with a terminated script (the value oracle holds)", rep, found_input=False)
     for p in problems:
         run.violation("proof obligation not discharged: " + p, {"broken": p, "theorems": run.cov["theorems"]}, found_input=False)
-    run.cov["evaluations"] = len(cases)
+    run.cov["evaluations"] = len(cases) + nterm
     run.cov["distinct_nontrivial"] = len(distinct)
     run.cov["rule"] = ("programs that embed a control structure (call with extra values / ending in an assignment, exitWith, breakOut with and "
                        "without value across scopes with pending operands, throw and runtime errors caught inside, iteration constructs, switch, "
                        "if-else) inside a half-built array or as operand of +, random programs of the shared generator, long loops; "
                        "every program is stepped with assembly_step on the implementation (stack height and every frame's base observed after each "
                        "instruction) and run to completion; non-trivial = inside the modelled fragment (compared with the model on listing, "
-                       "per-step trace and final observation), distinct by program text")
+                       "per-step trace and final observation), distinct by program text; plus histories of scheduled scripts (harness/h_sched.cpp, virtual "
+                       "clock): a spawned script sleeps inside 1-3 nested scopes that hold pending operands (sums, arrays, if, forEach, a function in "
+                       "a global) and is terminated by another script, by the main script or by itself, and failing evaluate_expression calls: the "
+                       "dropped work must not surface as the script's value")
+    run.cov["terminate_histories"] = nterm
     run.cov["input_distribution"] = kinds
     run.cov["unsupported_by_model"] = nunsup
     run.cov["disagreements_checked"] = ndis
